@@ -11,7 +11,8 @@ INFO = dict(
     "max_records keeps the first rows; every executed step has its row and never-executed rows stay -1; faithfulness by recomputation: each row's output and the next row's state are recomputed from "
     "the row's own (state, windows, rng, seq); plus one wall-clock episode with a node that moves its own ts (recorded delay = ts_end - ts_start). "
     "Non-trivial: a setting combination with >=1 field off and max_records below the number of steps",
-    trusted=["Lean: records are write-only queues of the machine (Props/C13.lean: record_noninterference for every SPSC network), list model of the record rows",
+    trusted=["Lean machine level (every schedule): every recorded row's output is the step function of the row's own inputs, recorded states chain (Async/Faithful.lean)",
+             "Lean: records are write-only queues of the machine (Props/C13.lean: record_noninterference for every SPSC network), list model of the record rows",
              "probe arithmetic re-implemented in harness/rt.py:probe_recompute"],
     assumptions=["compiled records do not log message records (rex: inputs=None in compiled NodeRecords)"],
 )
